@@ -12,3 +12,4 @@ import ExaModel.Props.C20
 #print axioms Exa.Props.C20.c20_exit_withdraws
 #print axioms Exa.Props.C20.c20_command_fields
 #print axioms Exa.Props.C20.c20_one_line_per_ip
+#print axioms Exa.Props.C20.c20_every_line_is_configured
